@@ -12,4 +12,4 @@ for id in "$@"; do
   out=$(/verif/check "$id" 2>&1); code=$?
   echo "== $id exit=$code"; echo "$out" | grep -E "VIOLATION|UNDECIDED|CHECKER|KNOWN" | cut -c1-260 | head -5; echo "$out" | tail -1 | cut -c1-200
 done
-git checkout -- . ; git status --short | head -3
+git reset -q --hard HEAD; git status --short | head -3
